@@ -97,7 +97,11 @@ TMapGet == IsOp("mapget")
            /\ Match(out')
 TCmp == IsOp("cmp") /\ Cmp(Operand(ev.x), Operand(ev.y)) /\ Match(out')
 
-TToInt == IsOp("toint") /\ ToInt(ev.src, ev.fallible, ev.width) /\ Match(out')
+TToInt ==
+    /\ IsOp("toint")
+    /\ LET e == ToIntRes(ev.src, ev.fallible, ev.width)
+       IN  IF "free" \in DOMAIN e THEN TRUE ELSE Match(e)
+    /\ ToInt(ev.src, ev.fallible, ev.width, ev.obs)
 TIntoRaw == IsOp("intoraw") /\ IntoRaw(ev.r, ev.obs.limbs)
             /\ IF out'.ok THEN TRUE
                ELSE /\ PrintT(<<"MISMATCH", l, "intoraw", "expected image of",
@@ -125,7 +129,11 @@ TItRun == IsOp("itrun") /\ ItRun(ev.kind, ev.x, ev.y, ev.w) /\ Match(out')
 TConvert == IsOp("convert") /\ Convert(ev.src, ev.to) /\ Match(out')
 TTextBase == IsOp("textbase") /\ TextBaseToDna(ev.byte) /\ Match(out')
 
-TToAmino == IsOp("toamino") /\ ToAmino(ev.src) /\ Match(out')
+TToAmino ==
+    /\ IsOp("toamino")
+    /\ LET e == ToAminoRes(ev.src)
+       IN  IF "free" \in DOMAIN e THEN TRUE ELSE Match(e)
+    /\ ToAmino(ev.src, ev.obs)
 TTryToAmino ==
     /\ IsOp("trytoamino")
     /\ LET e == TryToAminoRes(ev.src)
